@@ -84,3 +84,10 @@ Example C20_labels_example :
   let s := m_run [MConfig 0 7000 9000; MStart 1 0; MEnd 1 10 10 10 10; MConfig 0 7000 9001; MStart 2 0; MEnd 2 5 5 5 5] in
   counter s (false, false, (7000, 0, 9000)) = 10 /\ counter s (false, false, (7000, 0, 9001)) = 5.
 Proof. vm_compute. split; reflexivity. Qed.
+
+(** ... and on every clean end: nothing but the metrics switch stands between a copy that ended without
+    an error and the addition to the sent counter - no condition on the link, its toxics or its stubs
+    (regenerated from ToxicLink.write) *)
+Theorem C20_sent_on_every_clean_end : sent_counted_on_every_clean_end = true.
+Proof. reflexivity. Qed.
+Print Assumptions C20_sent_on_every_clean_end.
